@@ -123,7 +123,11 @@ def _gen_fn_spec(rng):
                     val = ["sq", fexpr(nm)]
                 else:
                     val = fexpr(nm)
-                body.append({"k": "logpdf", "var": var, "dist": dist, "value": val, "args": args})
+                kwn = {"normal": "scale", "exponential": "rate"}.get(dist)
+                body.append({"k": "logpdf", "var": var, "dist": dist, "value": val, "args": args,
+                             "kw_last": kwn if (kwn and rng.random() < 0.5) else None})
+                if body[-1]["kw_last"]:
+                    feats.add("logpdf-keyword")
                 vars_[var] = shape
                 feats.add("logpdf")
             else:
@@ -243,7 +247,7 @@ def _show_fn(spec, axes, form, axis_size):
         if k == "let":
             lines.append(f"  {st['var']} = {_sx(st['e'])}")
         elif k == "logpdf":
-            lines.append(f"  {st['var']} = {st['dist']}.logpdf({_sx(st['value'])}, {_sx(st['args'])})")
+            lines.append(f"  {st['var']} = {st['dist']}.logpdf({_sx(st['value'])}, {_sx(st['args'])})" + (f" [{st['kw_last']}= by keyword]" if st.get("kw_last") else ""))
         elif k == "sample":
             lines.append(f"  {st['var']} = {st['dist']}.sample({_sx(st['args'])}, sample_shape={st['sample_shape']})")
         elif k == "scan":
@@ -283,7 +287,11 @@ def _build_fn(spec):
                 env[st["var"]] = E.ev(st["e"], env)
             elif k == "logpdf":
                 d = dists[id(st)]
-                env[st["var"]] = d.logpdf(E.ev(st["value"], env), *[E.ev(a, env) for a in st["args"]])
+                la = [E.ev(a, env) for a in st["args"]]
+                if st.get("kw_last"):
+                    env[st["var"]] = d.logpdf(E.ev(st["value"], env), *la[:-1], **{st["kw_last"]: la[-1]})
+                else:
+                    env[st["var"]] = d.logpdf(E.ev(st["value"], env), *la)
             elif k == "sample":
                 d = dists[id(st)]
                 a = [E.ev(x, env) for x in st["args"]]
@@ -432,8 +440,10 @@ def _run_fn(case, ctx):
                 a = [E.ev(x, env) for x in st["args"]]
                 want = _bcast_logpdf(st["dist"], E.ev(st["value"], env), a)
                 ctx.count("lane_output_checks")
+                if st.get("kw_last"):
+                    ctx.count("lane_logpdf_keyword_checks")
                 if not R.close(lane_val, want, scale=float(np.max(np.abs(want))) if np.size(want) else 1.0, rel=3e-5):
-                    ctx.violation("modular_vmap|density-output-differs", {**d, "got": lane_val.tolist(), "reference": np.asarray(want).tolist()})
+                    ctx.violation("modular_vmap|density-output-differs" + ("|keyword-parameter" if st.get("kw_last") else ""), {**d, "got": lane_val.tolist(), "reference": np.asarray(want).tolist()})
                     return
                 env[var] = np.asarray(want)
             elif k == "sample":
